@@ -30,6 +30,7 @@ theorem OutSim.toRel {a : Out K V (Cache K V)} {b : Out K V (Ref K V)} (h : OutS
 
 theorem Sim.mach : MSim (Cache.mach (K := K) (V := V)) Ref.mach RSim (RSim 0) where
   weaken := fun h => ⟨h.1, by have := h.2; omega⟩
+  log := fun h => h.1.log
   find := fun {n c s} k h => by
     show (lookup k c.ring).isSome = (lookup k s.ents).isSome
     rw [h.1.lookup_eq k]
@@ -79,6 +80,7 @@ theorem HSim.find_eq {h : HCache K V} {c : Cache K V} (hs : HSim h c) (k : K) :
 
 theorem HSim.mach : MSim (HCache.mach (K := K) (V := V)) Cache.mach RHSim (RHSim 0) where
   weaken := fun h => ⟨h.1, by have := h.2; omega⟩
+  log := fun hs => hs.1.log
   find := fun {n h c} k hs => hs.1.find_eq k
   hit := fun {n h c} k hs hf => by
     have hf' : (lookup k c.ring).isSome = true := by rw [← hs.1.find_eq k]; exact hf
@@ -112,7 +114,7 @@ theorem HWSim.toRel {w : List (HCache K V)} {ws : List (Cache K V)} : HWSim w ws
    fun h => ⟨h.1, fun i a b ha hb => RHSim.zero_iff.1 (h.2 i a b ha hb)⟩⟩
 
 /-- one world step with a re-entrant on_miss: ring model vs reference cache -/
-theorem WSim.rwstep (P : K → OmProg K V) (fuel : Nat) {w : List (Cache K V)} {ws : List (Ref K V)}
+theorem WSim.rwstep (P : List K → K → OmProg K V) (fuel : Nat) {w : List (Cache K V)} {ws : List (Ref K V)}
     (h : WRel (RSim 0) w ws) (op : WOp K V) :
     WRel (RSim 0) (rwstep P fuel w op).1 (Ref.rwstep P fuel ws op).1 ∧
     OutRel (RSim 0) (rwstep P fuel w op).2 (Ref.rwstep P fuel ws op).2 :=
@@ -120,7 +122,7 @@ theorem WSim.rwstep (P : K → OmProg K V) (fuel : Nat) {w : List (Cache K V)} {
     (fun _ _ op hw => ⟨WSim.toRel.1 ((WSim.toRel.2 hw).step op).1, ((WSim.toRel.2 hw).step op).2.toRel⟩) h op
 
 /-- … pointer-level model vs ring model -/
-theorem HWSim.rwstep (P : K → OmProg K V) (fuel : Nat) {w : List (HCache K V)} {ws : List (Cache K V)}
+theorem HWSim.rwstep (P : List K → K → OmProg K V) (fuel : Nat) {w : List (HCache K V)} {ws : List (Cache K V)}
     (h : WRel (RHSim 0) w ws) (op : WOp K V) :
     WRel (RHSim 0) (rhwstep P fuel w op).1 (C02.rwstep P fuel ws op).1 ∧
     OutRel (RHSim 0) (rhwstep P fuel w op).2 (C02.rwstep P fuel ws op).2 :=
